@@ -181,3 +181,235 @@ func checkPooledMemory(p *Prog, r *Report, clause string) {
 	r.Check(got == "1/1/0/0", key, "positive control: the matcher flags a returned Buffer.Bytes() / slice of a pooled object and accepts a copy and a string", "checker/pool.go (in-memory fixture, not executed)",
 		"fixture escapes "+got, "fixture escapes "+got+", expected 1/1/0/0: the matcher is broken")
 }
+
+// ---------------------------------------------------------------------------------------------
+// Reset discipline (C09): what a pooled object holds when it comes out of the pool depends on this process's history (which calls
+// ran before, on which P, when the GC emptied the pool). Code whose results must not depend on that either resets the object
+// after Get, before any other use, or hands it back reset on every path (every Put is preceded by a Reset; with a deferred Put,
+// every return is).
+
+type poolFinding struct {
+	Get  ssa.Instruction
+	At   ssa.Instruction
+	What string
+}
+
+func isResetEvent(in ssa.Instruction, get ssa.Value) bool {
+	switch x := in.(type) {
+	case ssa.CallInstruction:
+		cc := x.Common()
+		if sc := cc.StaticCallee(); sc != nil && (sc.Name() == "Reset" || sc.Name() == "Truncate") && len(cc.Args) > 0 {
+			return pooledRoot(cc.Args[0], 0, map[ssa.Value]bool{}) == get
+		}
+	case *ssa.Slice:
+		if c, ok := x.High.(*ssa.Const); ok && c.Value != nil && c.Value.ExactString() == "0" {
+			return pooledRoot(x.X, 0, map[ssa.Value]bool{}) == get
+		}
+	}
+	return false
+}
+
+func poolResetDiscipline(fn *ssa.Function) []poolFinding {
+	var out []poolFinding
+	if fn == nil || fn.Blocks == nil {
+		return nil
+	}
+	o := &Origin{fn: fn}
+	for _, b := range fn.Blocks {
+		for _, in := range b.Instrs {
+			getV, ok := in.(ssa.Value)
+			if !ok || !isPoolGet(getV) {
+				continue
+			}
+			var resets, uses, puts []ssa.Instruction
+			deferredPut := false
+			closurePutResets := false
+			for _, b2 := range fn.Blocks {
+				for _, in2 := range b2.Instrs {
+					if in2 == in {
+						continue
+					}
+					if isResetEvent(in2, getV) {
+						resets = append(resets, in2)
+						continue
+					}
+					touches := false
+					for _, op := range in2.Operands(nil) {
+						if *op != nil && pooledRoot(*op, 0, map[ssa.Value]bool{}) == getV {
+							touches = true
+						}
+					}
+					if !touches {
+						continue
+					}
+					switch x := in2.(type) {
+					case *ssa.TypeAssert, *ssa.DebugRef, *ssa.Phi, *ssa.MakeInterface, *ssa.ChangeType, *ssa.Extract:
+						continue
+					case *ssa.Store:
+						// spilling the pointer into a local
+						if _, isAl := x.Addr.(*ssa.Alloc); isAl && pooledRoot(x.Val, 0, map[ssa.Value]bool{}) == getV {
+							continue
+						}
+					case *ssa.UnOp:
+						if _, isAl := x.X.(*ssa.Alloc); isAl {
+							continue // reloading the spilled pointer
+						}
+					case *ssa.MakeClosure:
+						// defer func() { buf.Reset(); pool.Put(buf) }()
+						if cf, ok := x.Fn.(*ssa.Function); ok {
+							hasReset, hasPut := false, false
+							for _, cb := range cf.Blocks {
+								for _, ci := range cb.Instrs {
+									if c, ok := ci.(ssa.CallInstruction); ok {
+										if sc := c.Common().StaticCallee(); sc != nil {
+											if sc.Name() == "Reset" || sc.Name() == "Truncate" {
+												hasReset = true
+											}
+											if FuncName(sc) == "(*sync.Pool).Put" {
+												hasPut = true
+											}
+										}
+									}
+								}
+							}
+							if hasReset && hasPut {
+								closurePutResets = true
+								continue
+							}
+						}
+					case ssa.CallInstruction:
+						if calleeName(x.Common()) == "(*sync.Pool).Put" {
+							puts = append(puts, in2)
+							if _, isDefer := in2.(*ssa.Defer); isDefer {
+								deferredPut = true
+							}
+							continue
+						}
+					}
+					uses = append(uses, in2)
+				}
+			}
+			// A: a reset after Get dominates every other use
+			okA := len(resets) > 0
+			for _, u := range uses {
+				dom := false
+				for _, rs := range resets {
+					if o.dominates(rs, u) {
+						dom = true
+					}
+				}
+				if !dom {
+					okA = false
+				}
+			}
+			// B: handed back reset on every path
+			okB := closurePutResets
+			if !okB && len(puts) > 0 {
+				okB = true
+				if deferredPut {
+					for _, ret := range returnsOf(fn) {
+						dom := false
+						for _, rs := range resets {
+							if o.dominates(rs, ret) {
+								dom = true
+							}
+						}
+						if !dom {
+							okB = false
+						}
+					}
+				}
+				for _, pt := range puts {
+					if _, isDefer := pt.(*ssa.Defer); isDefer {
+						continue
+					}
+					dom := false
+					for _, rs := range resets {
+						if o.dominates(rs, pt) {
+							dom = true
+						}
+					}
+					if !dom {
+						okB = false
+					}
+				}
+			}
+			if !okA && !okB && len(uses) > 0 {
+				out = append(out, poolFinding{Get: in, At: uses[0], What: fmt.Sprintf("%d uses of the pooled object, %d reset events; no reset dominates the uses, and the object is not reset on every path that hands it back", len(uses), len(resets))})
+			}
+		}
+	}
+	return out
+}
+
+const poolResetFixture = `package poolresetfx
+
+import (
+	"bytes"
+	"errors"
+	"sync"
+)
+
+var pool = sync.Pool{New: func() interface{} { return new(bytes.Buffer) }}
+
+func Dirty(vals [][]byte) ([]byte, error) {
+	buf := pool.Get().(*bytes.Buffer)
+	defer pool.Put(buf)
+	for _, v := range vals {
+		if len(v) > 255 {
+			return nil, errors.New("too long")
+		}
+		buf.WriteByte(byte(len(v)))
+		buf.Write(v)
+	}
+	out := append([]byte(nil), buf.Bytes()...)
+	buf.Reset()
+	return out, nil
+}
+
+func ResetOnGet(vals [][]byte) []byte {
+	buf := pool.Get().(*bytes.Buffer)
+	buf.Reset()
+	defer pool.Put(buf)
+	for _, v := range vals {
+		buf.Write(v)
+	}
+	return append([]byte(nil), buf.Bytes()...)
+}
+
+func ResetOnPut(vals [][]byte) []byte {
+	buf := pool.Get().(*bytes.Buffer)
+	defer func() { buf.Reset(); pool.Put(buf) }()
+	for _, v := range vals {
+		buf.Write(v)
+	}
+	return append([]byte(nil), buf.Bytes()...)
+}
+`
+
+// checkPoolResetDiscipline applies the rule to the functions in scope.
+func checkPoolResetDiscipline(p *Prog, r *Report, kp func(string, string) string, scope []*ssa.Function) {
+	rule := "what block processing computes does not depend on what a sync.Pool object still holds from earlier calls: a pooled object is reset after Get before any other use, or handed back reset on every path"
+	ckey := kp("STATE", "pool-reset-discipline:control#fixture")
+	if fx, err := buildFixture(p, "poolresetfx", poolResetFixture); err != nil {
+		r.Undecided(ckey, "positive control for the pool reset rule", "checker/pool.go", "fixture does not build: "+err.Error())
+	} else {
+		got := fmt.Sprintf("%d/%d/%d", len(poolResetDiscipline(fx["Dirty"])), len(poolResetDiscipline(fx["ResetOnGet"])), len(poolResetDiscipline(fx["ResetOnPut"])))
+		r.Check(got == "1/0/0", ckey, "positive control: a buffer that is reset only on the success path is reported; reset-after-Get and reset-in-the-deferred-Put are not", "checker/pool.go (in-memory fixture, not executed)",
+			"fixture findings "+got, "fixture findings "+got+", expected 1/0/0: the matcher is broken")
+	}
+	n := 0
+	for _, fn := range scope {
+		if fn.Blocks == nil || p.IsGenerated(fn) {
+			continue
+		}
+		for _, f := range poolResetDiscipline(fn) {
+			n++
+			r.Fail(kp("STATE", "pool-reset-discipline:"+FuncName(fn)), rule, p.Pos(f.At.Pos()),
+				fmt.Sprintf("%s takes an object from a sync.Pool (%s) and uses it without a dominating reset (%s): after a call that left it dirty (an error path), the next call on this node starts from that content — a node-local history that other nodes do not share", FuncName(fn), p.Pos(f.Get.Pos()), f.What))
+		}
+	}
+	if n == 0 {
+		r.OK(kp("STATE", "pool-reset-discipline#none"), rule, "x/*, types/*", fmt.Sprintf("%d functions in scope, no sync.Pool object used without the reset discipline", len(scope)))
+	}
+}
